@@ -66,8 +66,9 @@ BASE_MODELS = ["sphere", "cylinder", "core_shell_sphere", "hardsphere", "power_l
 class Live(object):
     """the live objects of one lineage; everything is created lazily and deterministically"""
 
-    def __init__(self, plug):
+    def __init__(self, plug, reuse_buffers=True):
         self.plug = plug
+        self.reuse_buffers = reuse_buffers
         self.models = {}
         self.kernels = {}
         self.qsel = 1
@@ -88,6 +89,11 @@ class Live(object):
         if key not in self.kernels:
             q = {"q1": [np.array(Q1)], "q2": [np.array(Q2)], "2d": [np.array(QX), np.array(QY)]}[which]
             self.kernels[key] = self.model(name).make_kernel(q)
+            # the caller reuses its own buffers afterwards: a kernel must not keep looking at them
+            # (the fresh-process oracle leaves its buffers alone, so aliasing shows as a difference)
+            if self.reuse_buffers:
+                for arr in q:
+                    arr[:] = 0.777
         return self.kernels[key]
 
 
@@ -171,6 +177,19 @@ def _ops():
                 "length_pd": 0.1, "length_pd_n": 40, "length_pd_nsigma": 6.0}
         v, ch = _guarded(lambda p: call_kernel(k, p, cutoff=1e-5), pars)
         return "cylinder:q1:mesh1600:1e-5", v, ch
+
+    def cyl_ngauss(L):
+        # a variant of the model with another quadrature size is built from its own info object;
+        # the standard model loaded before or afterwards must not notice
+        from sasmodels import core, generate
+        info = core.load_model_info("cylinder")
+        generate.set_integration_size(info, 20)
+        m = core.build_model(info, dtype="double", platform="dll")
+        k = m.make_kernel([np.array(Q1)])
+        v, ch = _guarded(lambda p: call_kernel(k, p), dict(P["cyl2"]))
+        L.kernels.pop(("cylinder", "q1"), None)
+        L.models.pop("cylinder", None)          # the next cylinder request loads the standard model again
+        return "cylinder@gauss20:q1:cyl2", v, ch
 
     def sph2d(pname):
         def op(L):
@@ -297,7 +316,7 @@ def _ops():
     ops = [
         ("mk_q1", mk("q1")), ("mk_q2", mk("q2")),
         ("sph_mono", sph("mono")), ("sph_disp", sph("disp")), ("sph_big", sph("big")),
-        ("sph_zero", sph("zero")), ("sph_cut", sph("disp", 0.02)), ("sph_monoflag", sph_monoflag), ("cyl_mesh", cyl_mesh),
+        ("sph_zero", sph("zero")), ("sph_cut", sph("disp", 0.02)), ("sph_monoflag", sph_monoflag), ("cyl_mesh", cyl_mesh), ("cyl_ngauss", cyl_ngauss),
         ("sph2d_mono", sph2d("mono")), ("sph2d_mag", sph2d("mag")),
         ("sph_fq", fq),
         ("cyl_disp", generic("cylinder", "q1", "cyl")), ("cyl_fq", generic("cylinder", "q1", "cyl2", True)),
@@ -314,7 +333,7 @@ def _ops():
     return ops
 
 
-QUICK_OPS = ["mk_q2", "sph_monoflag", "sph_disp", "sph_zero", "sph2d_mag", "sph2d_mono", "sph_fq", "cyl_mesh", "py_1", "py_2",
+QUICK_OPS = ["mk_q2", "sph_monoflag", "sph_disp", "sph_zero", "sph2d_mag", "sph2d_mono", "sph_fq", "cyl_fq", "cyl_mesh", "cyl_ngauss", "py_1", "py_2",
              "prod", "mix", "direct", "sv_set", "sv_eval", "sv_clone_mut", "svps", "release", "reload"]
 
 
@@ -450,7 +469,7 @@ def _oracle_one(arg):
     """fresh process: minimal set-up operations, then the request itself, as first evaluation"""
     setup_ops, opname = arg
     ops = dict(_ops())
-    L = Live(STATE["plug"])
+    L = Live(STATE["plug"], reuse_buffers=False)
     agg = _new_agg()
     for s in setup_ops:
         _apply(L, s, ops[s], [s], agg, None)
